@@ -122,6 +122,13 @@ func (t *ParserTerm) preCheck(ctx *Context) bool {
 
 	case t.Type == ParserTermError:
 		t.Symbol = ctx.Grammar.ErrorTerminal
+
+	case t.Type == ParserTermSimple && t.Child == nil:
+		// A simple term with neither a name nor an alias is the empty literal
+		// ''. It cannot denote a token and must not reach the grammar without a
+		// symbol.
+		ctx.Errs.Errorf(ctx.Position(t), "token literal cannot be empty")
+		return false
 	}
 
 	return true
